@@ -28,7 +28,8 @@ RULE = ('correspondence (extracted model vs real library, per colour type of the
         'Color::from(Raw::new(v)) -> channels, Raw::from(c), into_storage, to_be_bytes, to_le_bytes: ALL storage values for u8/u16 storage, '
         'one 255-value progression (stride 257, random offset) in each of the 256 strata of 2^16 for 24-bit types plus values with bits 24..31 set; '
         'col_new = new() with one u8 argument sweeping 0..255 and the other two from edge/random values; named = the 8 named RgbColor constants. '
-        'search: p_raw / p_new evaluate the property predicates against the documented layout on the implementation, all 2^24 raw values and all '
+        'col_info also compares Default::default() with the model value 0. search: p_binary = BinaryColor invert/is_on/is_off/From<bool>/Default; '
+        'p_raw also asserts to_ne_bytes == to_le_bytes == reverse(to_be_bytes) on this little-endian host, p_new asserts Default == BLACK; p_raw / p_new evaluate the property predicates against the documented layout on the implementation, all 2^24 raw values and all '
         '2^24 (r,g,b) argument triples of every type. Non-trivial = result line not empty; distinct = distinct case lines.')
 EXHAUSTIVE = {'quick': False, 'thorough': False}
 ASSUMPTIONS = ['a colour value of type t is an integer 0 <= c < 2^(used bits of t); the theorems C12_from_raw_valid / C12_new_channels / '
@@ -77,6 +78,7 @@ def cases(tier, rng):
 
 def search(tier, rng):
     types, _ = colorgen.load()
+    yield J('p_binary')      # BinaryColor::invert / is_on / is_off / From<bool> / Default
     for name, kind, sbits, bpp in types:
         # every raw value (through Raw::new of every storage value for u8/u16 storage)
         if sbits <= 16:
